@@ -720,6 +720,8 @@ class JSTypedArray(JSObject):
 
     def set_index(self, index: int, value) -> None:
         if 0 <= index < len(self._data):
+            if not isinstance(value, (int, float)):
+                value = to_number(value)  # "7", true, null ... store their number
             coerced = self._coerce_value(value)
             self._data[index] = coerced
             if self._buffer is not None:
